@@ -15,7 +15,9 @@ PId(s)     == [k |-> "id", name |-> s]
 PBinO(a, o, b) == [k |-> "bin", x |-> a, o |-> o, y |-> b]
 PBin(a, b) == PBinO(a, PStr("+"), b)
 PCall(f, l) == [k |-> "call", f |-> f, args |-> l]
-PNil       == [k |-> "nil"]
+PNil       == [k |-> "nil"]                   \* the empty-list pattern [] = (List nil nil)
+PNull      == [k |-> "pnil"]                  \* the atom `nil` (pattern.Nil): matches an absent child
+PSlice(a, lo, hi, mx) == [k |-> "slice", x |-> a, lo |-> lo, hi |-> hi, max |-> mx]
 PCons(h, t) == [k |-> "cons", h |-> h, t |-> t]
 Or2(a, b)  == [k |-> "or", alts |-> <<a, b>>]
 Not(a)     == [k |-> "not", a |-> a]
@@ -25,6 +27,8 @@ TBinO(op, a, b) == [k |-> "bin", op |-> op, x |-> a, y |-> b]
 TBin(a, b)  == TBinO("+", a, b)
 TList(es)   == [k |-> "list", es |-> es]
 TCall(f, es) == [k |-> "call", f |-> f, args |-> TList(es)]
+\* s[lo:hi:max]; lo, hi, max are trees or Absent (s[:], s[lo:], s[:hi], ...)
+TSlice(a, lo, hi, mx) == [k |-> "slice", x |-> a, lo |-> lo, hi |-> hi, max |-> mx]
 
 \* ---------------------------------------------------------------- helpers
 SeqsUpTo(S, n) == UNION { [1..m -> S] : m \in 0..n }
